@@ -126,6 +126,12 @@ mutant("c08_penalty_infinite", "C08", "variables/distributions.py",
 mutant("c08_survival_without_clamp", "C08", "variables/distributions.py",
        "        return -(\n            (torch.clamp(event_reparametrized_time, min=0.0) / nu_reparametrized) ** rho\n        )",
        "        return -(\n            (event_reparametrized_time / nu_reparametrized) ** rho\n        )")
+mutant("c08_censoring_decided_per_individual", "C08", "variables/distributions.py",
+       "        log_hazard = torch.where(event_bool != 0, log_hazard, 0.0)",
+       "        log_hazard = torch.where(~(event_bool != 0).any(dim=-1, keepdim=True), 0.0, log_hazard)")
+mutant("c08_source_shift_scaled_by_first_event_shape", "C08", "variables/distributions.py",
+       "        return nu * torch.exp(-(xi + (1 / rho) * (survival_shifts)))",
+       "        return nu * torch.exp(-(xi + (1 / rho[..., :1]) * (survival_shifts)))")
 # ----------------------------------------------------------------------------- C10
 mutant("c10_velocity_not_compensated", "C10", "models/riemanian_manifold.py",
        "        state[\"log_v0\"] = state[\"log_v0\"] + mean_xi", "        pass")
